@@ -235,10 +235,11 @@ def run_property(mod, tier, seed, replay=None):
             il, ist = impl.get(s.id, ([], "MISSING"))
             ml, mst = model.get(s.id, ([], "MISSING"))
             res.evaluations += 1
-            key = mod.nontrivial(s, il) if ist == "ok" else None
+            is_corpus = "corpus" in s.meta
+            key = mod.nontrivial(s, il) if (ist == "ok" and not is_corpus) else None
             if key is not None:
                 res.nontrivial.add(key)
-            for hk in mod.histogram(s, il):
+            for hk in (["regression_corpus"] if is_corpus else mod.histogram(s, il)):
                 res.hist[hk] = res.hist.get(hk, 0) + 1
             if len(res.samples) < 3 and key is not None:
                 res.samples.append({"scenario": s.lines[:12], "impl_output": il[:12]})
@@ -247,7 +248,7 @@ def run_property(mod, tier, seed, replay=None):
                 msg = "implementation side ended with %s (sanitizer report, crash or hang)" % ist
             else:
                 msg = corpus_oracle(s, il) if "corpus" in s.meta else None
-                if msg is None:
+                if msg is None and not is_corpus:
                     msg = mod.oracle(s, il)
             if msg:
                 handle_violation(mod, res, harness, s, il, ist, ml, msg)
